@@ -299,4 +299,18 @@ CHECKS = {
                dict(pkg="./redis-shake", harness=["run"], test="^TestVerif_C06R$", shards=16, gomaxprocs=2, budget=dict(quick=75, thorough=900)),
                dict(pkg="./redis-shake/filter", harness=["filter"], test="^TestVerif_C06F$", shards=1, budget=dict(quick=60, thorough=60))],
     ),
+    "C19": dict(
+        level="exploration",
+        engine="monitor over explored executions (synctest scenarios)",
+        technique="exhaustive product of run paths x log levels x fault injections executed on the real code against model peers that require the sentinel passwords; every log line, status document and configuration echo of every execution is scanned for the sentinels in plain, hex, base64 and byte-list form",
+        text="Two distinct sentinel passwords are configured for source and target and REQUIRED by the model peers (so the AUTH path really runs). The whole DbSyncer.Sync() "
+             "flow - topology discovery (cluster source), checkpoint load, PSYNC, full sync with 2 workers, incremental sync, source reconnect, restart after a target "
+             "error, refused source password - and the restore / rump / dump paths run with the tool's logger redirected to a buffer, at debug level (every statement on "
+             "the path formats its arguments) and at info level. After each execution the buffer, json and %v renderings of conf.GetSafeOptions(), DbSyncer.GetExtraInfo() "
+             "and metric.NewMetricRest() are scanned. Coverage is reported as the set of distinct log call sites (file:line) that fired.",
+        note="a monitor can only speak for the statements that the explored paths reach; the evidence lists them. main.go (startup echo) does not compile on the pinned tree, so the echo is checked at conf.GetSafeOptions(), the only thing it prints",
+        rule="execution = (path, log level, source type, resume, fault); states = distinct log call sites that fired; non-trivial = all executions (each authenticates with both sentinels)",
+        parts=[dict(pkg="./redis-shake/dbSync", harness=["dbsync"], test="^TestVerif_C19$", shards=16, gomaxprocs=2, budget=dict(quick=75, thorough=300)),
+               dict(pkg="./redis-shake", harness=["run"], test="^TestVerif_C19R$", shards=16, gomaxprocs=2, budget=dict(quick=75, thorough=300))],
+    ),
 }
